@@ -38,6 +38,8 @@ TOP = {
     "f_args": ("def f{u}(*args: int) -> int:\n    return 1\n", [("fun", "f{u}", ["variadic"])]),
     "f_kwargs": ("def f{u}(**kwargs: int) -> int:\n    return 1\n", [("fun", "f{u}", ["variadic"])]),
     "f_optpos": ("def f{u}(a: int = 1, /) -> int:\n    return 1\n", [("fun", "f{u}", ["optpos"])]),
+    "f_optpos_zero": ("def f{u}(a: int = 0, b: float = 0.0, c: bool = False, /) -> int:\n    return 1\n", [("fun", "f{u}", ["optpos"])]),
+    "f_optpos_empty_str": ("def f{u}(a: str = '', /) -> int:\n    return 1\n", [("fun", "f{u}", ["optpos"])]),
     "f_reqkw": ("def f{u}(*, a: int) -> int:\n    return 1\n", [("fun", "f{u}", ["reqkw"])]),
     "f_value": ("def f{u}(a: int = not 1) -> int:\n    return 1\n", [("fun", "f{u}", ["value"])]),
     "f_result_set": ("def f{u}(a: int) -> set[int]:\n    return set()\n", [("fun", "f{u}", ["set"])]),
